@@ -124,7 +124,7 @@ CHECKS.update({
              'caller does not recompute unless a write overlapped it, no deadlock. Whether an acquire is enabled is decided by a non-blocking probe of the real lock file as it is on disk (so unlinking / re-creating the lock file has its real effect) and the real FileLock is taken with timeout=0 on every grant; JSON, numpy and DataFrame caches; a vacuity counter '
              'requires schedules in which a reader really sits inside a write window; sampled schedules are replayed twice. Process legs: the same harnesses are explored again with every caller in '
              'its own forked process (ProcRun: each visible operation is announced over a pipe and performed after the scheduler process says go; the lock is the operating system\'s lock '
-             'between processes; nothing in Python is shared), bound 1-2 (quick) / 2-4 (thorough). The lock object handed to the library wraps whatever taskchain.cache.FileLock is in the tree under test.',
+             'between processes; nothing in Python is shared), bound 1-2 (quick) / 2-4 (thorough). The lock object handed to the library wraps whatever taskchain.cache.FileLock is in the tree under test and delegates to it (try-acquire included). Judged to the letter: a caller that starts after another call has returned never recomputes unless forced, a get that starts then finds the value. Extra harnesses: H10 lock hand-over A -> reader -> B (bound 4), H9 two different keys of one bucket directory.',
         note='Steps between two visible operations are atomic. Preemption bound, not full interleaving space. Process legs use smaller bounds than thread legs.',
         design='DESIGN.md §4 C15', engine='sched'),
 })
